@@ -52,7 +52,7 @@ def gen_instance(rng, ped=None, n_cols=None, max_cov=4, n_reads=None, blank_prob
     # true haplotypes per individual (independent; Mendelian consistency is irrelevant for the HMM identity)
     haps = [[[rng.randrange(2) for _ in range(n_cols)] for _ in range(2)] for _ in range(n_ind)]
     reads, cov = [], [0] * n_cols
-    tries = 0
+    tries = n_big = 0
     while len(reads) < n_reads and tries < 20 * n_reads:
         tries += 1
         a = rng.randrange(0, n_cols - 1)
@@ -72,8 +72,9 @@ def gen_instance(rng, ped=None, n_cols=None, max_cov=4, n_reads=None, blank_prob
             r = rng.random()
             if r < 0.04:
                 q = 0
-            elif big_q and r < 0.08:
-                q = rng.choice([255, 256, 300])
+            elif big_q and r < 0.08 and n_big < 3:
+                # at most three: the Float model has no scaling, many 1e-30 factors would underflow in double
+                q = rng.choice([255, 256, 300]); n_big += 1
             ents.append([c, al, q])
         for c in range(a, b + 1):
             cov[c] += 1
